@@ -227,7 +227,7 @@ pub fn run(s: &Scn, ctx: &mut RunCtx) -> RunOutput {
                     Status::Unresolved if c.beh.out != Outcome::Never => {
                         world::violation("C11.no_hang", "leader", format!("leader {} never resolved", i));
                     }
-                    Status::Panicked if c.beh.out != Outcome::Panic => {
+                    Status::Panicked if !matches!(c.beh.out, Outcome::Panic | Outcome::PanicInCall) => {
                         world::violation("C11.shared_result", "panic", format!("leader {} panicked: {:?}", i, t.panic_msg));
                     }
                     Status::Cancelled => world::probe("leader_cancelled"),
